@@ -2471,9 +2471,18 @@ func newRepo(uuid dvid.UUID, v dvid.VersionID, id dvid.RepoID, passcode string) 
 }
 
 func (r *repoT) branchHeads() map[string]dvid.UUID {
+	// The head of a branch is the node without a child on the same branch.  It can still
+	// have children on other branches.
 	branchToUUID := make(map[string]dvid.UUID)
 	for _, node := range r.dag.nodes {
-		if len(node.children) == 0 {
+		isHead := true
+		for _, childV := range node.children {
+			if child, found := r.dag.nodes[childV]; found && child.branch == node.branch {
+				isHead = false
+				break
+			}
+		}
+		if isHead {
 			branchToUUID[node.branch] = node.uuid
 		}
 	}
